@@ -76,12 +76,30 @@ TICKS = [False]
 TICK_VARIANTS = ("join", "try_join", "join_async", "awrap|join_async", "awrap|try_join_async")
 
 
-def tk(body):
-    return f"{{ rt::sem::tick(&__cnt); {body} }}" if TICKS[0] else body
+# Hygiene: the closures also read caller locals with names a macro author might pick for a generated binding; if the
+# expansion introduces such a binding around user code, the closure sees the macro's variable instead (type error).
+ALIASES = ["value", "v", "result", "results", "res", "handler", "h", "joiner", "step", "fut", "item", "err", "ok", "branch", "idx", "i", "n",
+           "tmp", "val", "data", "inner", "prev", "next", "current", "wrapped", "it", "f", "g", "s", "t", "c", "d", "m", "w", "y", "u",
+           "future", "output", "args", "arg", "tuple", "first", "last", "left", "right", "values", "handle", "thread", "task", "joined"]
+
+
+SALT = [0]      # rotates the alias names from one chain to the next (deterministic: chains are rendered in a fixed order)
+
+
+def tk(body, site=0):
+    if not TICKS[0]:
+        return body
+    try:
+        si = int(site)
+    except (TypeError, ValueError):
+        si = sum(map(ord, str(site)))
+    k = SALT[0] * 5 + 2 * si
+    a, b = ALIASES[k % len(ALIASES)], ALIASES[(k + 1) % len(ALIASES)]
+    return f"{{ rt::sem::tick(&__cnt); rt::sem::touch(&{a}); rt::sem::touch(&{b}); {body} }}"
 
 
 def shaped(params, body, ret, shape, site, fnitems, opidx=0):
-    c = f"|{params}| {tk(body)}"
+    c = f"|{params}| {tk(body, site)}"
     if shape == "closure" or (ret is None and shape not in ("block", "block2")):
         return c
     if shape == "fnpath":
@@ -94,7 +112,7 @@ def shaped(params, body, ret, shape, site, fnitems, opidx=0):
     if shape == "paren":
         return f"({c})"
     if shape == "rettype":
-        return f"|{params}| -> {ret} {{ {tk(body)} }}"
+        return f"|{params}| -> {ret} {{ {tk(body, site)} }}"
     if shape == "macro":
         return f"rt::clos!({c})"
     if shape == "field":
@@ -104,7 +122,8 @@ def shaped(params, body, ret, shape, site, fnitems, opidx=0):
     if shape == "index":
         return f"[{c}][0]"
     if shape == "ref":
-        return f"&{c}"
+        # a borrowed closure literal stays alive only while it is a constant (rvalue promotion): no captures here
+        return f"&|{params}| {body}"
     if shape == "ifelse":
         fnitems.append(f"fn f_{site}({params}) -> {ret} {{ {body} }}")
         return f"if rt::sem::yes() {{ f_{site} }} else {{ f_{site} }}"
@@ -139,7 +158,7 @@ def operand_text(item, site, st, fnitems, twin=False):
             return f"futures::stream::iter({VAL[arg]})"
         if op in ("filter", "filter_map", "fold"):
             p, b, r = cb_parts(arg, op, inty, site)
-            c = f"|{p}| {tk(f'futures::future::ready({b})')}"
+            c = f"|{p}| {tk(f'futures::future::ready({b})', site)}"
             return f"0i64, {c}" if op == "fold" else c
     if op == "dot":
         return DOT[arg]
@@ -429,7 +448,8 @@ def chain_fns(name, chain, variant="join"):
     mitems, titems = [], []
     STREAM[0] = variant in ("join_async", "join_async_spawn")
     TICKS[0] = variant in TICK_VARIANTS
-    cnt = "    let __cnt = std::cell::Cell::new(0i64);\n" if TICKS[0] else ""
+    SALT[0] = sum(map(ord, name)) + len(chain["items"])
+    cnt = ("    let __cnt = std::cell::Cell::new(0i64);\n" + "".join(f"    let {a} = std::cell::Cell::new(0i64);\n" for a in ALIASES)) if TICKS[0] else ""
     chk = "    rt::sem::same_ticks(&__cnt);\n" if variant in ("join", "try_join") else ""
     mchain = macro_chain(chain, mitems)
     if STREAM[0]:
